@@ -1,9 +1,11 @@
 -------------------------- MODULE PacketLayer_Trace --------------------------
 (* code -> spec for C01 (honest streams) and C02 (edited streams).               *)
 (* A trace is what one sender Packetizer / one receiver Packetizer really did:   *)
-(*   [strict, zlib, ev]   ev = sequence of events [a, i, r, got, seq]            *)
+(*   [strict, zlib, mode0, ev]   mode0 = framing mode of the first key epoch,    *)
+(*                        ev = sequence of events [a, i, r, got, seq]            *)
 (*   a = "Send"   i = message id, seq = sender's sequence number before the call *)
-(*       "Switch" _activate_outbound was called (seq as above)                   *)
+(*       "Switch" _activate_outbound was called (seq as above), r = framing mode *)
+(*                of the new key epoch ("classic" | "etm" | "aead")              *)
 (*       "Flip" / "DelByte" / "InsByte" / "Drop" / "Replay" / "Swap" / "Cut"     *)
 (*                the harness edited packet i of the bytes in flight (r = region)*)
 (*       "Read"   read_message returned: r = "data" | "newkeys", got = id of the *)
@@ -30,7 +32,7 @@ Min(a, b) == IF a < b THEN a ELSE b
 S(c, name) == IF c THEN {name} ELSE {}
 
 TInit == /\ tid \in 1..Len(Batch) /\ l = 1 /\ bad = {} /\ cdel = <<>>
-         /\ Init /\ cfg = [strict |-> R.strict, zlib |-> R.zlib, mut |-> "none"]
+         /\ Init /\ cfg = [strict |-> R.strict, zlib |-> R.zlib, mode0 |-> R.mode0, mut |-> "none"]
 
 CanRead == rstate = "ok" /\ wire # <<>>
 Stuck   == UNCHANGED vars
@@ -45,7 +47,7 @@ SendStep ==
 SwitchStep ==
     /\ cdel' = cdel
     /\ IF nsw < MaxSwitch
-         THEN ActivateOutbound /\ bad' = S(E.seq >= 0 /\ E.seq # sseq, "C_seq_out")
+         THEN ActivateOutbound(E.r) /\ bad' = S(E.seq >= 0 /\ E.seq # sseq, "C_seq_out")
          ELSE Stuck /\ bad' = {"C_spec_stuck"}
 
 AttackStep ==
